@@ -43,6 +43,7 @@ def setup(ctx):
         "scripted deny responses are well-formed; a raising component may be answered with any well-formed non-2x response",
     ]
     ctx.require("monitor", "connections_with_proxy_handler", 300)
+    ctx.require("monitor", "wired_connections", 8)
     ctx.require("monitor", "connections", 500)
     ctx.require("monitor", "mw_calls_observed", 500)
     ctx.require("monitor", "rejected_connections", 150)
@@ -420,6 +421,60 @@ def run_conn(ctx, chain_specs, req, label, valid, schedule, has_cert, handler_ki
              sample={"level": level, "proto": proto, "chain": chain_sig, "expected": exp, "schedule": schedule, "stream": stream[:40], "entries": [n_h, n_u]})
 
 
+def run_wired(ctx, base):
+    """The chain as start_server() really assembles it from a configuration (captured production wiring, no
+    socket): for every request the configured components refuse, the static handler opens nothing."""
+    import contextlib
+    import io
+
+    from nauyaca.server.config import ServerConfig
+    from nauyaca.server.middleware import AccessControlConfig, RateLimitConfig
+
+    from vf import quiet_logs
+    from vf.sim import capture_factory
+
+    docroot = os.path.join(base, "doc")
+    configs = [
+        ("access-control:default-deny-no-lists", dict(access_control_config=AccessControlConfig(default_allow=False), enable_rate_limiting=False), [53]),
+        ("access-control:default-deny+rate-limit", dict(access_control_config=AccessControlConfig(default_allow=False), enable_rate_limiting=True), [53]),
+        ("access-control:deny-list", dict(access_control_config=AccessControlConfig(deny_list=["198.51.100.0/24"]), enable_rate_limiting=False), [53]),
+        ("access-control:allow-list-elsewhere", dict(access_control_config=AccessControlConfig(allow_list=["10.0.0.0/8"], default_allow=True), enable_rate_limiting=True), [53]),
+        ("rate-limit:capacity-1", dict(enable_rate_limiting=True, rate_limit_config=RateLimitConfig(capacity=1, refill_rate=0.001, retry_after=9)), [20, 44, 44]),
+        ("none:control", dict(enable_rate_limiting=False), [20]),
+    ]
+    audit = AuditMonitor.get()
+    for name, kw, expected in configs:
+        with contextlib.redirect_stdout(io.StringIO()):
+            cap = capture_factory(dict(log_level="CRITICAL", **kw), ServerConfig(host="127.0.0.1", port=1965, document_root=docroot))
+        quiet_logs()
+        loop = new_loop()
+        try:
+            for i, want in enumerate(expected):
+                for req in (b"gemini://example.org/doc.gmi\r\n", b"gemini://example.org/private/%ff/../doc.gmi\r\n")[: 1 if len(expected) > 1 else 2]:
+                    sim = ServerSim(cap["factory"], peername=PEER, loop=loop, log=[])
+                    audit.start()
+                    sim.start()
+                    sim.feed(req)
+                    loop.run_until(loop.time() + 1.0)
+                    events = audit.stop()
+                    stream = bytes(sim.transport.written)
+                    status = int(stream[:2]) if stream[:2].isdigit() else None
+                    fs = [e for e in events if e["ev"] != "os.listdir" and under(e.get("path"), [docroot])]
+                    ctx.count("monitor", "wired_connections")
+                    wit = {"level": "L1-wired", "configuration": name, "request": req, "status": status, "expected_status": want, "fs_events": [(e["ev"], e.get("path")) for e in fs][:6]}
+                    if want != 20:
+                        ctx.count("monitor", "rejected_connections")
+                        if fs:
+                            ctx.violation(f"handler-after-deny:wired:{name.split(':')[0]}", f"configuration {name} refuses this request, yet the document root was read", wit)
+                        elif status != want:
+                            ctx.violation(f"chain-not-installed:wired:{name.split(':')[0]}", f"configuration {name} must answer {want}, got {status}", wit)
+                    elif status != 20 and not req.count(b"%ff"):
+                        ctx.violation(f"allowed-not-handled:wired:{name}", f"nothing refuses this request, got {status}", wit)
+                    ctx.case(("wired", name, i, status), True, sample=wit)
+        finally:
+            close_loop(loop)
+
+
 def chains(ctx, rng):
     out = []
     # all single components, all ordered pairs of a reduced alphabet, sampled triples
@@ -447,6 +502,8 @@ def run(ctx):
         os.makedirs(os.path.join(base, "doc", "private"))
         with open(os.path.join(base, "doc", "private", "doc.gmi"), "w") as f:
             f.write("# private doc\n")
+        if ctx.shard == 0 or ctx.nshards == 1:
+            run_wired(ctx, base)
         k = 0
         all_chains = chains(ctx, rng)
         for ci, chain in enumerate(all_chains):
